@@ -184,6 +184,10 @@ func TestVerif_C10_commit(t *testing.T) {
 		}
 		classes := ""
 		order := r.Perm(w.n)
+		nativeOdds := map[cciptypes.ChainSelector]int{}
+		for _, ch := range w.sources {
+			nativeOdds[ch] = vPick(r, []int{6, 5, 5, 1, 0})
+		}
 		for _, ch := range w.sources {
 			thr := 2*w.fChain[ch] + 1
 			pn, a, b := vC10Pattern(r, w.n, thr)
@@ -239,6 +243,10 @@ func TestVerif_C10_commit(t *testing.T) {
 				}
 				if r.Chance(5, 6) {
 					obs[o].ChainFeeObs.FeeComponents[ch] = ctypes.ChainFeeComponents{ExecutionFee: big.NewInt(int64(1000 + r.Intn(5))), DataAvailabilityFee: big.NewInt(int64(10 + r.Intn(3)))}
+				}
+				// native prices independently of the fee components: a chain may reach its threshold for one and not
+				// for the other (per chain: priced by nearly everybody, or by too few)
+				if r.Chance(nativeOdds[ch], 6) {
 					obs[o].ChainFeeObs.NativeTokenPrices[ch] = cciptypes.NewBigInt(new(big.Int).Mul(big.NewInt(int64(2000+r.Intn(4))), big.NewInt(1e18)))
 				}
 				if r.Chance(4, 6) {
